@@ -27,13 +27,17 @@ func checkC01(c *Ctx) {
 	c.Rule("C01/R9", "the parser that reads the writer's %v floats back is the correctly rounding one: the conversion functions carried over from strconv agree with strconv region by region (same rule as C03/R5; shortest-decimal output round-trips only through a correctly rounding parser)")
 	c.Rule("C01/R8", "SetConfig marks the key internal: every write of a configuration value in SetConfig is to an entry whose File flag is set false on the same path (the entry comes from ensureConfig(key, false) or File is stored false)")
 
-	p := mustLoad(c, loadOpts{}, "./benchfmt")
+	c.Rule("C01/R11", "what the writer may emit as a key line the reader takes as one: nothing the reader's key recogniser tests before decoding the first character rejects a line beginning with a lower-case letter (same rule as C02/R12)")
+	c.Rule("C01/R12", "one writer per output stream: the filter command creates its benchfmt.Writer outside every loop (a writer only knows the configuration it has itself written; a fresh one in mid-stream drops the 'key:' deletion lines, so keys of an earlier input leak into later results on read-back)")
+	p := mustLoad(c, loadOpts{}, "./benchfmt", "./cmd/benchfilter")
 	c01Writer(c, p)
 	c01Verbs(c, p)
 	c01Owns(c, p)
 	c01SetConfig(c, p)
 	c03Port(c, "C01/R9")
 	c04R1(c, p, "C01/R10")
+	c02KeyStart(c, p, "C01/R11")
+	c01OneWriter(c, p)
 }
 
 func c01Owns(c *Ctx, p *Prog) {
@@ -926,4 +930,27 @@ func c01Verbs(c *Ctx, p *Prog) {
 	}
 	c.Floor("C01/R4", "format verbs in Writer methods", n, 6)
 	c.Floor("C01/R5", "unit metadata print sites", nUnit, 1)
+}
+
+func c01OneWriter(c *Ctx, p *Prog) {
+	const R = "C01/R12"
+	n := 0
+	for _, fn := range p.Funcs("cmd/benchfilter") {
+		loops := naturalLoops(fn)
+		eachInstr(fn, func(b *ssa.BasicBlock, in ssa.Instruction) {
+			call, ok := in.(*ssa.Call)
+			if !ok || !objIs(calleeObj(&call.Call), modPath+"/benchfmt", "", "NewWriter") {
+				return
+			}
+			n++
+			inLoop := fn.Parent() != nil // a closure may be called repeatedly
+			for _, lp := range loops {
+				if lp.Blocks[b] {
+					inLoop = true
+				}
+			}
+			c.Check(!inLoop, R, fmt.Sprintf("%s:NewWriter#%d", fnName(fn), n), p.pos(call.Pos()), "created once, before the loop over the inputs", "the output writer is created inside a loop (or a closure): each new writer starts with an empty idea of what configuration the stream already carries, so it neither deletes keys the previous inputs set nor skips unchanged ones; read back, results of a later input inherit keys that only an earlier input had")
+		})
+	}
+	c.Floor(R, "writers created by the filter command", n, 1)
 }
